@@ -778,6 +778,34 @@ fn inner_c11(world_no: u64, t: &mut Tape, rep: &mut WorldReport) {
                         format!("`{}`/{} ({}): decode(encode(t)) differs from t", prod.name, prod.txname, prod.stage),
                     );
                 }
+                // the canonical form goes through the crate's own Serialize: what an encoder loses, it loses
+                // on both sides of that comparison. The integers of the two values are therefore also
+                // compared as the Debug rendering shows them (as multisets: hash containers print in any order)
+                let ints_of = |x: &tir::Tx| {
+                    let text = format!("{x:?}");
+                    let mut out: Vec<String> = vec![];
+                    let mut cur = String::new();
+                    for c in text.chars() {
+                        if c.is_ascii_digit() || (c == '-' && cur.is_empty()) {
+                            cur.push(c);
+                        } else {
+                            if cur.len() > 3 {
+                                out.push(cur.clone());
+                            }
+                            cur.clear();
+                        }
+                    }
+                    out.sort();
+                    out
+                };
+                if ints_of(&back) != ints_of(&prod.tx) {
+                    rep.violate(
+                        "C11",
+                        "W1-roundtrip",
+                        format!("integers/{}", prod.stage),
+                        format!("`{}`/{} ({}): the integers of decode(encode(t)) (as Debug shows them) are not those of t", prod.name, prod.txname, prod.stage),
+                    );
+                }
                 if summarize(&back) != summarize(&prod.tx) {
                     rep.violate(
                         "C11",
@@ -1104,8 +1132,17 @@ fn render_plain(t: &mut Tape, v: &Intended) -> (J, String) {
         Intended::Address(a) => match t.draw(3) {
             0 => (json!(hex::encode(a)), "hex".into()),
             1 => {
-                let hrp = bech32::Hrp::parse("addr_test").unwrap();
-                (json!(bech32::encode::<bech32::Bech32>(hrp, a).unwrap()), "bech32".into())
+                // the prefix CIP-5 gives this kind of address on this network
+                let test = a.first().map(|h| h & 0x0f == 0).unwrap_or(true);
+                let reward = a.first().map(|h| h >> 4 >= 14).unwrap_or(false);
+                let hrp_s = match (reward, test) {
+                    (true, true) => "stake_test",
+                    (true, false) => "stake",
+                    (false, true) => "addr_test",
+                    (false, false) => "addr",
+                };
+                let hrp = bech32::Hrp::parse(hrp_s).unwrap();
+                (json!(bech32::encode::<bech32::Bech32>(hrp, a).unwrap()), format!("bech32/{hrp_s}"))
             }
             _ => (json!(format!("0x{}", hex::encode(a))), "0xhex".into()),
         },
@@ -1167,7 +1204,17 @@ fn intended_for(t: &mut Tape, ty: &Type) -> Option<Intended> {
             let n = *t.pick(&[4usize, 0, 1, 28, 32, 64]);
             Intended::Bytes(t.bytes(n))
         }
-        Type::Address => Intended::Address(addr_for(t.index(3), false, t.chance(1, 2))),
+        Type::Address => match t.draw(5) {
+            // a reward (stake) address of either network: header 0xE0 | network, then the credential
+            4 => {
+                let mut a = vec![0xE0u8 | (t.draw(2) as u8)];
+                a.extend(std::iter::repeat(0x5E).take(28));
+                Intended::Address(a)
+            }
+            // a payment address on main-net
+            3 => Intended::Address(addr_for(t.index(3), true, t.chance(1, 2))),
+            _ => Intended::Address(addr_for(t.index(3), false, t.chance(1, 2))),
+        },
         Type::UtxoRef => {
             let n = *t.pick(&[32usize, 1, 0, 33]);
             Intended::UtxoRef(t.bytes(n), *t.pick(&[0u32, 1, u32::MAX]))
